@@ -12,7 +12,7 @@ rsync -a --exclude .git /repo/ "$T/repo/"
 if [ -z "$SKIP_SUITE" ]; then
   if ( cd "$T/repo" && go test -vet=off -count=1 ./... >"$T/suite.log" 2>&1 ); then S=pass; else S=FAIL; fi
 else S=skipped; fi
-VERIF_REPO="$T/repo" /verif/bin/gosymex check -prop "$ID" -tier "$TIER" > "$T/check.log" 2>&1
+VERIF_EVIDENCE_DIR="$T/evidence" VERIF_REPO="$T/repo" /verif/bin/gosymex check -prop "$ID" -tier "$TIER" > "$T/check.log" 2>&1
 E=$?
 grep -E "VIOLATION|ENGINE-MISMATCH|INCONCLUSIVE|KNOWN-FINDING|violation witness" "$T/check.log" | head -8
 echo "MUT $(basename $P) prop=$ID suite=$S check_exit=$E"
